@@ -7,7 +7,7 @@ instrument recognisers on every line seen plus a pool of near-miss strings.
 """
 from __future__ import annotations
 
-from vmon import gen, harness, observe, probes, recog
+from vmon import gen, harness, model, observe, probes, recog
 from vmon.props import c07
 
 ID = "C14"
@@ -84,6 +84,38 @@ def claimants(types, line):
     return out
 
 
+def kinds_of_section(kind):
+    import chartparse.globalevents as G
+    import chartparse.instrument as I
+    import chartparse.sync as S
+
+    return {"instrument": (I.NoteEvent.ParsedData, I.StarPowerEvent.ParsedData, I.TrackEvent.ParsedData),
+            "sync": (S.BPMEvent.ParsedData, S.TimeSignatureEvent.ParsedData, S.AnchorEvent.ParsedData),
+            "events": (G.LyricEvent.ParsedData, G.SectionEvent.ParsedData, G.TextEvent.ParsedData)}[kind]
+
+
+def unclaimed_in_sections(sections, rec=None) -> int:
+    """lines of the recognised sync / events / instrument sections that no kind of their section claims — computed from the
+    text itself, not from what the dispatch probe happened to see (an implementation need not route every section through
+    the same helper)"""
+    n = 0
+    for name, body in sections:
+        k = kind_of(name)
+        if k is None or name not in KNOWN_HEADERS:
+            continue
+        types = kinds_of_section(k)
+        for ln in body:
+            cl = claimants(types, ln)
+            if not cl:
+                n += 1
+            elif rec is not None:
+                rec.cls("claimed_by:" + cl[0].__qualname__.split(".")[0])
+    return n
+
+
+KNOWN_HEADERS = {"SyncTrack", "Events"} | {model.header(i, d) for i, d in model.ALL_PAIRS}
+
+
 def check_dispatch(rec, log, logs, case) -> bool:
     """conservation / exactly-once over the dispatch records of one parse"""
     ok = True
@@ -114,7 +146,6 @@ def check_dispatch(rec, log, logs, case) -> bool:
                                   "two-kinds-claim-one-line")
                     ok = False
                 per_kind[cl[0].__qualname__] += 1  # first in dispatch order wins (only matters in [Events])
-                rec.cls("claimed_by:" + cl[0].__qualname__.split(".")[0])
         total_unclaimed += unclaimed
         n_data = sum(r["data"].values())
         rec.ev()
@@ -134,11 +165,12 @@ def check_dispatch(rec, log, logs, case) -> bool:
             rec.violation("exactly-once", f"[Events]: {len(lines) - unclaimed} lines have a claimant but {n_data} data were produced "
                           f"({r['data']})", case, "events-data!=claimed-lines")
             ok = False
-    if any(r["probe"] == "dispatch" for r in log):
+    if case.get("sections"):
         rec.ev()
-        if len(track_warn) != total_unclaimed:
-            rec.violation("warnings", f"{total_unclaimed} unclaimed lines in the whole chart but {len(track_warn)} records on logger "
-                          f"chartparse.track", case, "warnings!=unclaimed-lines")
+        expected = unclaimed_in_sections([(n, b) for n, b in case["sections"]], rec)
+        if len(track_warn) != expected:
+            rec.violation("warnings", f"{expected} lines of the recognised sections are claimed by no kind of their section, but "
+                          f"{len(track_warn)} warnings were recorded on logger chartparse.track", case, "warnings!=unclaimed-lines")
             ok = False
     return ok
 
